@@ -254,6 +254,66 @@ func genC11(e *emitter, tier string, seed uint64) map[string]interface{} {
 	for i := 0; i < n; i++ {
 		historyCase(e, rg, 20+rg.intn(60))
 	}
+	// histories over ONE packet object: packed, its exported metadata map edited the way a relay or a retry edits it (index assignment of the
+	// same length, of another length, delete + add with the number of pairs unchanged, the map replaced, Set), packed again on the same and on
+	// another context — every frame is a function of the packet as it is at that moment; nothing of an earlier Pack survives in the packet
+	for i := 0; i < n/2; i++ {
+		ctx := newCtx(2, protocol.CodecProtobuf)
+		pkv, err := protocol.NewPush(ctx, uint32(50+rg.intn(100)), rg.bytes(rg.pick([]int{0, 3, 40})))
+		if err != nil {
+			continue
+		}
+		pk := &pkv
+		for j, np := 0, 1+rg.intn(4); j < np; j++ {
+			pk.SetMetadata(fmt.Sprintf("k%d", j), string(rg.bytes(1+rg.intn(12))))
+		}
+		steps := []string{}
+		for st := 0; st < 5; st++ {
+			keys := sortedKeys(pk.Metadata.Values)
+			switch op := rg.intn(5); {
+			case op == 0 && len(keys) > 0:
+				k := keys[rg.intn(len(keys))]
+				pk.Metadata.Values[k] = string(bytes.Repeat([]byte{byte('A' + st)}, len(pk.Metadata.Values[k])))
+				steps = append(steps, "overwrite-same-length")
+			case op == 1 && len(keys) > 0:
+				pk.Metadata.Values[keys[rg.intn(len(keys))]] = string(rg.bytes(1 + rg.intn(30)))
+				steps = append(steps, "overwrite")
+			case op == 2 && len(keys) > 0:
+				delete(pk.Metadata.Values, keys[rg.intn(len(keys))])
+				pk.Metadata.Values[fmt.Sprintf("n%d", st)] = "new"
+				steps = append(steps, "delete+add")
+			case op == 3:
+				nm := map[string]string{fmt.Sprintf("r%d", st): "replaced"}
+				for k, v := range pk.Metadata.Values {
+					nm[k] = v
+				}
+				pk.Metadata.Values = nm
+				steps = append(steps, "replace-map")
+			default:
+				pk.SetMetadata(fmt.Sprintf("S%d", rg.intn(3)), string(rg.bytes(rg.intn(9))))
+				steps = append(steps, "Set")
+			}
+			body := append([]byte{}, pk.Body...)
+			useCtx := ctx
+			if st%2 == 1 {
+				useCtx = newCtx(2, protocol.CodecProtobuf)
+			}
+			frame, err := proto(2).Pack(useCtx, pk)
+			pk.Body = body
+			fv, _ := protocol.NewPush(newCtx(2, protocol.CodecProtobuf), pk.Metadata.CmdCode, append([]byte{}, body...))
+			fv.Metadata.Values = map[string]string{}
+			for k, v := range pk.Metadata.Values {
+				fv.Metadata.Values[k] = v
+			}
+			want, errW := proto(2).Pack(newCtx(2, protocol.CodecProtobuf), &fv)
+			if (err == nil) != (errW == nil) || !bytes.Equal(frame, want) {
+				idx := e.op(fmt.Sprintf("gz.note repack-history steps=%s", strings.Join(steps, "+")), "ok", "repack-history", true)
+				e.fail(idx, "pack_pure:v2", fmt.Sprintf("one packet packed, then edited (%s) and packed again gives (err=%v) %s; a fresh packet with the same fields and the current metadata map %s gives (err=%v) %s", strings.Join(steps, ", "), err, showBytes(frame), showMap(pk.Metadata.Values), errW, showBytes(want)))
+				break
+			}
+		}
+	}
+	e.op("gz.note repack-histories", "ok", "repack-history", true)
 	// N goroutines with private contexts running the same mixed workload: every result equals the sequential one (supporting)
 	G := 8
 	if thorough {
